@@ -99,7 +99,9 @@ unsafe impl GlobalAlloc for Tracking {
             }
             unlock();
             // Poison so that a use after free reads garbage rather than the old contents.
-            unsafe { ptr.write_bytes(0xDD, layout.size()) };
+            // (the first MiB of very large blocks: a multi-GiB block of which a few pages were
+            // touched must not become resident by being freed)
+            unsafe { ptr.write_bytes(0xDD, layout.size().min(1 << 20)) };
         }
         unsafe { System.dealloc(ptr, layout) }
     }
